@@ -74,7 +74,7 @@ def run(ctx):
                 continue
             fnc = Fn(fx.raw(fid))
             rmw += sum(1 for b, op, fld, c in sync.atomic_sites(fnc) if op in ("fetch_add", "fetch_sub", "swap"))
-            sync.commit_before_check(ctx, fnc)
+            sync.commit_before_check(ctx, fnc, fx=fx)
             nrel += sync.push_relink(ctx, fnc, fx=fx)
             sync.lock_split(ctx, fnc)
     ctx.instance("R-COMMIT.rmw_sites", rmw)
